@@ -41,6 +41,23 @@ for q, fn in repo.all_funcs():
 with open(os.path.join(HERE, 'refshapes.json'), 'w') as f:
     json.dump(shapes, f, indent=0, sort_keys=True)
 print('refshapes.json: %d functions' % len(shapes))
+# every identifier of the reference tree (names, attributes, parameters, defs): what is not in here is NEW (sa/canon.py S43)
+idents = set()
+for rel, m in repo.modules.items():
+    for n in ast.walk(m.tree):
+        if isinstance(n, ast.Name):
+            idents.add(n.id)
+        elif isinstance(n, ast.Attribute):
+            idents.add(n.attr)
+        elif isinstance(n, ast.arg):
+            idents.add(n.arg)
+        elif isinstance(n, (ast.FunctionDef, ast.AsyncFunctionDef, ast.ClassDef)):
+            idents.add(n.name)
+        elif isinstance(n, ast.alias):
+            idents.add((n.asname or n.name).split('.')[0])
+with open(os.path.join(HERE, 'refidents.json'), 'w') as f:
+    json.dump(sorted(idents), f, indent=0)
+print('refidents.json: %d identifiers' % len(idents))
 if nonscalar:
     print('WARNING: augmented assignments on containers (step S5 of sa/canon.py assumes none):')
     for x in nonscalar:
